@@ -1,4 +1,5 @@
 import SLModel.Lemmas.HttpWrites
+import SLModel.Lemmas.HttpSched
 /-!
 # C23 — HTTP writes acknowledged as queued are never silently dropped
 
@@ -401,5 +402,59 @@ example : resp ruN (.bulk [(2, 20), (0, 0)] : Req Nat (Nat × Nat)) = .rejected 
     resp ruN (.add [] : Req Nat (Nat × Nat)) = .queued 0 ∧
     resp ruN (.delete [4, 4] : Req Nat (Nat × Nat)) = .queued 2 ∧
     rollsBack ruN (.bulk [(2, 20), (0, 0)] : Req Nat (Nat × Nat)) = true := by decide
+
+
+/-! ## concurrency: handler threads interleaved step by step (`Core/HttpSched`)
+
+The theorems above treat a request as one atomic block.  These justify it: every handler takes
+the service-wide lock **before** it creates its writer, so every interleaving of handler steps is
+a serial execution of whole requests (in the order of their effect steps), and the serial
+semantics never loses an operation.  With the `/commit` handler's snapshot taken *before* the lock
+this is false (`snapshot_before_lock_loses_acked_write`). -/
+
+namespace Sched
+open SL.HttpSched
+
+/-- **lock_first_serializable**: for every job assignment and every schedule (any number of
+threads, any interleaving of their steps, threads waiting for the lock included) the handlers
+exclude each other, and committed map and log are exactly what the atomic one-request-at-a-time
+semantics gives for the jobs in the order of their effect steps -/
+theorem lock_first_serializable (proj : δ → δ) (jobs : Nat → Job ι δ) (sched : List Nat) :
+    let s := run true proj (start jobs) sched
+    (∀ u, holds (s.th u) = true → s.lock = some u) ∧
+    (s.committed, s.log) = serial proj s.hist ([], []) := by
+  have hi := run_inv proj sched (inv_start proj jobs)
+  exact ⟨hi.excl, hi.flat⟩
+
+/-- **concurrent_writes_never_lost**: under any schedule, folding what is still pending over what
+is committed gives the fold — in the order of the appends — of the operations of every write
+whose append happened (an acknowledged write is one of them: the handler answers after its
+append): nothing acknowledged is ever dropped by a concurrent `/commit` -/
+theorem concurrent_writes_never_lost (proj : δ → δ) (jobs : Nat → Job ι δ) (sched : List Nat) :
+    let s := run true proj (start jobs) sched
+    s.log.foldl (Spec.apply proj) s.committed = (histOps s.hist).foldl (Spec.apply proj) [] := by
+  have hi := run_inv proj sched (inv_start proj jobs)
+  have t := serial_total proj (run true proj (start jobs) sched).hist ([], [])
+  rw [← hi.flat] at t
+  simpa using t
+
+/-- thread 0 commits, thread 1 is an `/add` of document 10 under id 1 -/
+def jobsW : Nat → Job Nat Nat := fun t => if t = 1 then .write [.add 1 10] else .commit
+
+/-- **negative witness** (the `/commit` handler creating its writer before taking the lock):
+three phases — commit takes its snapshot (empty); the `/add` runs to completion and is
+acknowledged; commit takes the lock, applies the stale snapshot and truncates the log.  The
+acknowledged document is neither committed nor pending.  Under the same schedule with the lock
+first the `/add` simply waits, and once it has run its document is pending. -/
+theorem snapshot_before_lock_loses_acked_write :
+    let s := run false id (start jobsW) [0, 1, 1, 1, 0, 0, 0]
+    ackedWrite s 1 = true ∧ s.committed = [] ∧ s.log = [] ∧ s.lock = none ∧
+    (let s' := run true id (start jobsW) [0, 1, 1, 1, 0, 0, 0, 1, 1, 1]
+     ackedWrite s' 1 = true ∧ s'.log = [.add 1 10] ∧
+     (run true id s' [0, 0, 0, 0]).committed = [] ∧
+     (run true id (run true id (start jobsW) [1, 1, 1]) [0, 0, 0, 0]).committed = [(1, 10)]) := by
+  decide
+
+end Sched
 
 end SL.HttpWrites
